@@ -109,7 +109,7 @@ def plan(tier, seed):
                   mutants=[{'name': 'content_type_sticks', 'cfg': {}}])
     # attributes that share one name (or one namespace and name): nothing after them is lost
     doc_jobs += [['<a b="1" b="2" c="3"', 0, '>t</a>'], ['<html lang="en" xml:lang="en" dir="ltr"', 0, '>t</html>'],
-                 ['<a b="1" B="2" b=\'3\' ', 0, 'c>t</a>']]
+                 ['<a b="1" B="2" b=\'3\' c="', 0, '">t</a>']]
     fams = [
         dict(name='iter_xml_tiles', module=H, fn='tok_tiles', jobs=[{'shape': s} for s in tok],
              timeout=to_tok, vacuity=1,
